@@ -167,7 +167,12 @@ def r2_reads(ctx):
             a = [x[1] if x[0] == "&" else x for x in t[2]]
             ok = len(a) == 4 and a[0] == ("f", ("*", ("param", 1)), "white") and a[1] == ("f", ("*", ("param", 1)), "black") \
                 and a[2] == ("f", ("*", ("param", 1)), "turn") and a[3] == ("f", ("*", ("param", 1)), "en_passant_square_shift")
-        ctx.ob(rid, "%s|argument-order" % nm, ok, "" if ok else "%s passes %s (expected white, black, turn, en_passant_square_shift)" % (nm, show(t) if t else "?"), ctx.where(f))
+        if not (t and t[0] == "call" and len(t[2]) == 4):
+            # the from-scratch hash is not one call that is handed the four parts of the position (it was merged with
+            # its helper, or composes several partial hashes)
+            ctx.lost(rid, "%s as one call passing (white, black, turn, e.p. square)" % nm)
+        else:
+            ctx.ob(rid, "%s|argument-order" % nm, ok, "" if ok else "%s passes %s (expected white, black, turn, en_passant_square_shift)" % (nm, show(t) if t else "?"), ctx.where(f))
     # triples
     inl = Inliner(prog, only=lambda k: k.startswith(PS))
     triples = []
